@@ -294,8 +294,8 @@ func (e *emitter) sparseDatabases(r *rand.Rand, dir, tier string) error {
 		scs = append(scs, bh[:6]...)
 		scs = append(scs, sparseScenario{65536, -1, "lock-next-page-then-inside", nil, true, true})
 		scs = append(scs, bh[6:]...)
-		scs = append(scs, sparseScenario{65536, -3, "lock-beyond-then-inside", nil, true, false}, sparseScenario{65536, 0, "lock-last-page", nil, true, false})
 		scs = append(scs, boundaryHistories(4096, false)[:2]...)
+		scs = append(scs, sparseScenario{65536, 0, "lock-last-page", nil, true, false}, sparseScenario{65536, -3, "lock-beyond-then-inside", nil, true, false})
 		switch os.Getenv("VERIF_LTX_SCENARIO") {
 		case "4096":
 			scs = []sparseScenario{{4096, -3, "lock-beyond-then-inside", nil, true, true}}
